@@ -480,10 +480,60 @@ def preamble_replay(scn, c):
     return bool(bad), 'real binaries: %s (observed vs expected: %r)' % ('deviates' if bad else 'as expected', bad or want)
 
 
+ARGV_SCENARIO = r"""
+set -u
+mkdir -p proj/@DODIR@ proj/@TDIR@ && cd proj
+export OUT="$PWD/../args.out"
+cat > @DOFILE@ <<'DO'
+@FIRST@
+printf '%s\n' "$PWD" "$1" "$2" "$3" > "$OUT"
+echo content > "$3"
+DO
+redo-ifchange @TARGET@ > ../log 2>&1; echo "rc=$?"
+echo "base=$PWD"
+sed 's/^/ARG=/' ../args.out
+"""
+
+
+def argv_replay(scn, c):
+    import posixpath
+    w = c['witness']
+    t, dof = w['target'], w['do_file']
+    # a `#!` line is reproduced with /bin/sh so that the same script body runs; the interpreter obligation itself is not replayable
+    script = (ARGV_SCENARIO.replace('@DODIR@', posixpath.dirname(dof) or '.').replace('@TDIR@', posixpath.dirname(t) or '.')
+              .replace('@DOFILE@', dof).replace('@TARGET@', t).replace('@FIRST@', '#!/bin/sh' if w.get('shebang') else ': plain'))
+    rc, out = scn.run({}, script, timeout=120)
+    c['scenario_output'] = out[-1500:]
+    lines = out.split('\n')
+    base = [l[5:] for l in lines if l.startswith('base=')]
+    args = [l[4:] for l in lines if l.startswith('ARG=')]
+    if not base or len(args) != 4:
+        return False, 'scenario gave no arguments: ' + out[-300:]
+    shape = [sh for sh in ARG_SHAPES if sh[0].decode() == t and sh[1].decode() == dof]
+    if not shape:
+        return False, 'unknown shape'
+    _, _, cwd, a1, a2 = shape[0]
+    want_cwd = base[0] + cwd.decode()[len('/p'):]
+    full3 = posixpath.normpath(posixpath.join(args[0], args[3]))
+    fullt = posixpath.normpath(posixpath.join(base[0], t))
+    bad = []
+    if args[0] != want_cwd:
+        bad.append('cwd %s (want %s)' % (args[0], want_cwd))
+    if args[1] != a1.decode():
+        bad.append('$1 %s (want %s)' % (args[1], a1.decode()))
+    if args[2] != a2.decode():
+        bad.append('$2 %s (want %s)' % (args[2], a2.decode()))
+    if posixpath.dirname(full3) != posixpath.dirname(fullt) or full3 == fullt:
+        bad.append('$3 %s is not beside %s' % (full3, fullt))
+    return bool(bad), 'real binaries: %s' % ('; '.join(bad) if bad else 'arguments as documented %r' % (args,))
+
+
 def make_replay(chk, rep, scn):
     def replay(c):
         role = c.get('role', '')
         w = c.get('witness', {})
+        if c.get('kind') == 'argv':
+            return argv_replay(scn, c)
         if role.startswith('start_self:') and c.get('kind') == 'buildjob':
             return preamble_replay(scn, c)
         if c.get('kind') == 'crash' and w.get('crash_point') in CRASH_SPEC and w.get('script'):
@@ -989,3 +1039,120 @@ def recover(eng, fs, content, db, runid):
     except Panic as e:
         out['error'] = 'panic: %s' % e.msg
     return out
+
+
+# ------------------------------------------------------------------------------------------------ script arguments (C13)
+ARG_SHAPES = [
+    # (target relative to the project base, the .do file that exists (relative to the base), documented: cwd, $1, $2)
+    (b'tgt', b'tgt.do', b'/p', b'tgt', b'tgt'),
+    (b'tgt', b'default.do', b'/p', b'tgt', b'tgt'),
+    (b'x.y.z', b'default.y.z.do', b'/p', b'x.y.z', b'x'),
+    (b'x.y.z', b'default.z.do', b'/p', b'x.y.z', b'x.y'),
+    (b'd/x.c', b'd/x.c.do', b'/p/d', b'x.c', b'x.c'),
+    (b'd/x.c', b'd/default.c.do', b'/p/d', b'x.c', b'x'),
+    (b'd/x.c', b'default.c.do', b'/p', b'd/x.c', b'd/x'),
+    (b'd/e/x.c', b'd/default.do', b'/p/d', b'e/x.c', b'e/x.c'),
+    (b'd/e/x.c', b'default.c.do', b'/p', b'd/e/x.c', b'd/e/x'),
+]
+
+
+def script_arguments(chk, pid):
+    """what the forked child does up to execvp (the real closure handed to JobServerHandle::start is executed): it runs the chosen
+    script in the script's directory with $1 = the target relative to that directory, $2 = $1 without the matched extension,
+    $3 = a temporary path beside the target; REDO_TARGET / REDO_PWD / REDO_DEPTH are set; the job's lock id is added to the
+    cycle list before exec"""
+    eng = chk.eng
+    install_job_stubs(eng)
+    eng.stubs['ProcessState::is_flushed'] = lambda e, ci, a, sp: True
+    st = {}
+
+    def run():
+        k = eng.choose(len(ARG_SHAPES), 'shape')
+        tname, dofile, cwd, a1, a2 = ARG_SHAPES[k]
+        verbose = eng.choose(2, 'verbose')
+        shebang = eng.choose(2, 'shebang')
+        R = z3.Int('R')
+        w = BuildWorld(eng, R)
+        eng.world = w
+        eng.assume(z3.And(R > 1, R < (1 << 62)))
+        w.add_file(T_ID, tname)
+        w.fs[tuple(tname)] = None
+        w.fs[tuple(dofile)] = tuple(S1)
+        for d_ in (b'd', b'd/e'):
+            w.fs[tuple(d_)] = tuple(S_DIR)
+        w.do_firstline = b'#!/usr/bin/env python3\n' if shebang else b'echo hi\n'
+        w.canonicalize = lambda e, p_: ok(Vec(list(bytes(deref_all(p_).items)), 'PathBuf'))
+        env = dbmodel.make_env(eng, R, log=0, verbose=verbose)
+        psr = new_cell(dbmodel.make_process_state(eng, env))
+        st.update(w=w, shape=ARG_SHAPES[k], verbose=verbose, shebang=shebang)
+        w.run_child = True
+        w.child_rv = None
+        ptx = dbmodel.begin(eng, psr)
+        ptxr = new_cell(ptx)
+        if run_sets_commit_on_drop(eng):
+            eng.call('ProcessTransaction::set_drop_behavior', [ptxr, Enum('DropBehavior', 'Commit')], None, None)
+        job = make_job(eng, w, ptxr, name=tname)
+        ps_rc = new_cell(Struct('RefCell', [psr, 0]))
+        r = eng.call('BuildJob::start_self', [job, ps_rc, ptxr.get(), new_cell(Opaque('JobServerHandle', None)), none()], None, None)
+        if r.var != 'Ok' or not w.jobs:
+            return r, None
+        return r, w.child_rv
+
+    def judge(outcome, val, path):
+        w = st['w']
+        tname, dofile, cwd, a1, a2 = st['shape']
+        wit = {'target': tname.decode(), 'do_file': dofile.decode(), 'verbose': st['verbose'], 'shebang': st['shebang'],
+               'argv': [a.decode('latin-1') for a in (w.exec_argv or [])], 'cwd': (w.child_cwd or b'').decode('latin-1')}
+
+        def cand(role, what):
+            return {'role': 'script-args:' + role, 'kind': 'argv', 'what': 'script invocation: ' + what, 'witness': wit}
+        if outcome == 'panic':
+            return cand('panic', 'aborts: %s' % val.msg)
+        if outcome != 'ok':
+            return None
+        r, rv = val
+        if rv != 'exec' or not w.exec_argv:
+            return cand('no-exec', 'the child does not reach execvp (%r)' % (rv,))
+        chk.goal('script-args: a default.*.do in a parent directory is used', tname.count(b'/') > dofile.count(b'/'))
+        chk.goal('script-args: a #! line is honoured', bool(st['shebang']))
+        argv = list(w.exec_argv)
+        if st['shebang']:
+            if argv[:2] != [b'/usr/bin/env', b'python3']:
+                return cand('interpreter', 'the #! interpreter line is not used: %r' % (argv[:3],))
+            rest = argv[2:]
+        else:
+            want0 = [b'sh', b'-ev' if st['verbose'] else b'-e']
+            if argv[:2] != want0:
+                return cand('shell', 'shell invocation is %r, expected %r' % (argv[:2], want0))
+            rest = argv[2:]
+        if len(rest) != 4:
+            return cand('argc', 'the script gets %d arguments instead of script + $1 $2 $3' % (len(rest) - 1))
+        script, g1, g2, g3 = rest
+        child_cwd = w.child_cwd if w.child_cwd is not None else w.cwd
+        if child_cwd != cwd:
+            return cand('cwd', 'the script runs in %r, its own directory is %r' % (child_cwd, cwd))
+        if child_cwd + b'/' + script != BASE + b'/' + dofile:
+            return cand('script', 'the script executed is %r in %r, the chosen one is %r' % (script, child_cwd, dofile))
+        if g1 != a1:
+            return cand('arg1', '$1 is %r, the target relative to the script directory is %r' % (g1, a1))
+        if g2 != a2:
+            return cand('arg2', '$2 is %r, $1 without the matched extension is %r' % (g2, a2))
+        # $3: beside the target, not the target itself
+        import posixpath
+        full3 = posixpath.normpath((child_cwd + b'/' + g3).decode('latin-1'))
+        fullt = posixpath.normpath((BASE + b'/' + tname).decode('latin-1'))
+        if posixpath.dirname(full3) != posixpath.dirname(fullt) or full3 == fullt:
+            return cand('arg3', '$3 is %r (= %s), not a temporary name beside the target %s' % (g3, full3, fullt))
+        if bytes(w.envmap.get('REDO_TARGET', b'')) != a1:
+            return cand('env-target', 'REDO_TARGET is %r, expected %r' % (bytes(w.envmap.get('REDO_TARGET', b'')), a1))
+        cyc = bytes(w.envmap.get('REDO_CYCLES', b'')).split(b':')
+        if str(T_ID).encode() not in cyc:
+            return cand('cycles', 'the lock id of the job is not added to REDO_CYCLES before exec (%r)' % (cyc,))
+        return None
+
+    def sample(outcome, val, path):
+        w = st['w']
+        return {'target': st['shape'][0].decode(), 'do_file': st['shape'][1].decode(), 'cwd': (w.child_cwd or b'').decode(),
+                'argv': [a.decode('latin-1') for a in (w.exec_argv or [])]}
+
+    chk.explore('script invocation: cwd, argv, $1 $2 $3, environment (child closure up to execvp)', run, judge, sample)
